@@ -48,8 +48,9 @@ def g_coefficients(tier, seed):
     import math
     n = z3.Real('n')
     dom = [n >= ratval(Fraction(1, 802)), n <= ratval(Fraction(1, 298))]
-    e = _N()
+    e = gc.Ellipsoid(6378137, Fraction('298.257222101'))      # a real Ellipsoid object whose third flattening is the symbol n
     e.n = SymReal(n)
+    e.n2 = e.n ** 2
     code = cv.beta_coeff(e)
     ref = [-b for b in RT.beta(SymReal(n))]
     out = []
@@ -113,6 +114,7 @@ def check_case(case, tier, seed):
     out = []
     nret = ncut = 0
     mk = lambda env: {'env': env, 'case': list(case)}
+    best_defined = [0, None, None, 0]
     for p in paths:
         if p.kind == 'cut':
             ncut += 1
@@ -132,6 +134,8 @@ def check_case(case, tier, seed):
                                        got, refv, HALF11, pid=PID, key='O2:inverse', oracle='oracles.c02:inverse_env', domain=DOM,
                                        make_args=mk, extra_conds=extra, timeout_s=QT[tier], paths=len(paths),
                                        extra_points=TC.stress_points()))
+        if p.defined and len(p.defined) > best_defined[0]:
+            best_defined[:] = [len(p.defined), p, extra, n_iter]
         if d['steps']:
             goal = ob.zabs(toz(d['steps'][-1])) <= ratval(Fraction(1, 10 ** 11))
             out.append(ob.decide_goal('O2', '%s: exit after %d Newton steps only when the last step is <= 1e-11' % (tag, n_iter),
@@ -139,6 +143,13 @@ def check_case(case, tier, seed):
                                       key='O2:exit', domain=DOM, num_conds=p.assumptions + p.pc, timeout_s=QT[tier], extra_points=TC.stress_points()))
         else:
             out.append(ob.ground_violation('O2', 'grid2geo returns without a Newton step', PID, 'O2:exit', 'oracles.c02:inverse_env', mk({})))
+    if best_defined[1] is not None:
+        # every division on the longest returning path has a non-zero divisor (a zero divisor is a ZeroDivisionError in the real code);
+        # one query per case, short timeout: when the solver cannot decide, the oracle's stress set (equator, zone edges) is replayed
+        n_def, p, extra, n_iter = best_defined
+        out.append(ob.decide_goal('O5', '%s: all %d divisions / function arguments on the %d-step path are defined' % (tag, n_def, n_iter),
+                                  ob.path_conds(p) + extra, z3.And(*[c for c, _ in p.defined]), pid=PID, oracle='oracles.c02:inverse_env',
+                                  args_from_model=mk, key='O5:raises', timeout_s=6))
     out.append(ob.res('O2', '%s: Newton loop unrolled to K=%d: %d returning paths, %d cut' % (tag, K, nret, ncut),
                       'proved' if nret >= 1 else 'inconclusive', [ob.qrec('paths', solve.prove([], z3.BoolVal(True), 5, False))],
                       paths=len(paths)))
@@ -266,11 +277,20 @@ def g_standalone(tier, seed):
             t, steps = RT.newton_tau(g['tp'], syms['ecc1'], syms['ecc1sq'], 3)
             return mathx.degrees(mathx.atan(t)), (zone - 1) * 6 - 177 + g['dl_deg']
         (rlat, rlon), extra = TC.with_facts(ref)
-        dom = dict(DOM)
+        # numeric witness search: the shared constants take their GRS80 values, the grid coordinate ranges over the accepted box
+        # (the edges of the accepted easting range are stress points: truncation errors of the series grow with cosh(2j eta))
+        dom = {'east': (-2830000, 3830000), 'north': (0, 10000000), 'zone': (1, 60)}
+        cst = {}
+        for k in names:
+            q = exact_fraction(old[k])
+            dom['c_' + k] = (q, q)
+            cst['c_' + k] = q
+        xp = [dict(cst, east=e_, north=n_, zone=z_) for e_ in (-2830000, 3830000, -1500000, 2500000) for n_ in (1500000, 6000000, 9000000)
+              for z_ in (55,)]
         for got, refv, nm in ((o[0], rlat, 'latitude'), (o[1], rlon, 'longitude')):
             out.append(ob.decide_close('O6', 'stand-alone %s = reference inverse with three Newton steps (11-decimal rounding)' % nm, p, got, refv,
-                                       HALF11, pid=PID, key='O6:skeleton', oracle='oracles.c02:standalone', domain=None,
-                                       make_args=lambda env: {'env': env}, extra_conds=extra, timeout_s=QT[tier]))
+                                       HALF11, pid=PID, key='O6:skeleton', oracle='oracles.c02:standalone', domain=dom,
+                                       make_args=lambda env: {'env': env}, extra_conds=extra, timeout_s=QT[tier], extra_points=xp))
     return out
 
 
